@@ -276,4 +276,21 @@ theorem Safe.readH {n : Nat} {m m' : Mem} (h : Safe n m m') (hn : m.heap.length 
   rw [h.same x (by omega)]
   exact hx
 
+/-- the frame invariant of `table_to_tree` on a base tree (repaired code) -/
+theorem tableToTreeH_safe (f : Nat) (m : Mem) (its : List (Path × Val)) (t : Nat)
+    (m' : Mem) (r : Nat) (h : tableToTreeH f m its t = .ok (m', r)) :
+    r = m.heap.length ∧ Safe m.heap.length m m' ∧ Closed m.heap.length m' := by
+  simp only [tableToTreeH] at h
+  split at h
+  · cases h
+  · split at h
+    · cases h
+    · next m1 c hc =>
+      simp only [Except.ok.injEq, Prod.mk.injEq] at h
+      obtain ⟨rfl, rfl⟩ := h
+      obtain ⟨e, hlt, hs, hcl⟩ := copyH_spec f m t m1 c hc
+      subst e
+      have := setItemsH_safe m.heap.length m.heap.length [] its m1 hs.len (Nat.le_refl _) hcl
+      exact ⟨rfl, hs.trans this.1, this.2⟩
+
 end Pyg.TreeHeap
